@@ -427,6 +427,9 @@ func (c *evalCtx) eval(e ast.ExprNode) (interface{}, error) {
 		if err != nil {
 			return nil, err
 		}
+		if c.t.def.Cols[i].AutoInc {
+			return int64(0), nil
+		}
 		v, err := defaultAt(&c.t.def.Cols[i], c.now)
 		if err != nil {
 			return nil, err
